@@ -50,6 +50,7 @@ fn run_scenario(out: &mut TraceOut, family: &str, seed: u64, idx: u64, heavy: bo
         "prefixes" => iters::scn_iters(out, &mut r, idx, heavy, 2, false, true),
         "iters_v1" => iters::scn_iters(out, &mut r, idx, heavy, 1, true, true),
         "merge" => merger::scn_merge(out, &mut r, idx, heavy),
+        "merge_many" => merger::scn_merge_many(out, &mut r, idx, heavy),
         "sorter" => sorter::scn_sorter(out, &mut r, idx, heavy),
         "spill" => sorter::scn_spill(out, &mut r, idx, heavy),
         "sorter_real" => sorter::scn_sorter_real(out, &mut r, idx, true),
